@@ -8,6 +8,14 @@ pub fn eval_size_fees(tx: &[u8], pparams: &PParams, extra_fees: Option<u64>) -> 
         + extra_fees.unwrap_or(DEFAULT_EXTRA_FEES)
 }
 
+/// Same as `eval_size_fees`, or `None` when the fee does not fit 64 bits.
+pub fn checked_eval_size_fees(tx: &[u8], pparams: &PParams, extra_fees: Option<u64>) -> Option<u64> {
+    (tx.len() as u64)
+        .checked_mul(pparams.min_fee_coefficient)?
+        .checked_add(pparams.min_fee_constant)?
+        .checked_add(extra_fees.unwrap_or(DEFAULT_EXTRA_FEES))
+}
+
 pub fn slot_to_time(slot: i128, cursor: &ChainPoint) -> i128 {
     let current_time = cursor.timestamp as i128;
     let time_diff = slot - cursor.slot as i128;
